@@ -94,8 +94,8 @@ fn c20_struct_counter() {
 // @tier quick
 // @crate dnp3-ffi
 // @timeout 300
-// @units impl From<ffi::UpdateOptions> for UpdateOptions, From<ffi::EventClass> for Option<EventClass>
-// @bounds both booleans / every event mode: static update flag and event mode arrive as given
+// @units impl From<ffi::EventClass> for Option<EventClass>
+// @bounds the four event classes of the binding (none, 1, 2, 3) map to their namesakes
 #[kani::proof]
 #[kani::unwind(2)]
 fn c20_update_options() {
@@ -116,4 +116,32 @@ fn c20_update_options() {
         _ => panic!("event class not preserved"),
     }
     kani::cover!(k == 3);
+}
+
+// @harness c20_update_options_fields
+// @props C20
+// @tier quick
+// @crate dnp3-ffi
+// @timeout 300
+// @units impl From<ffi::UpdateOptions> for UpdateOptions, UpdateOptions::new
+// @bounds both values of update_static x the three event modes (all six combinations): the converted options are bit-identical to UpdateOptions::new(update_static, namesake mode).  The native fields are private; the two values are compared through their two-byte representation (bool + field-less enum: no padding, same compiler, same layout on both sides)
+#[kani::proof]
+#[kani::unwind(3)]
+fn c20_update_options_fields() {
+    let us: bool = kani::any();
+    let k: u8 = kani::any();
+    kani::assume(k < 3);
+    let (fm, nm) = match k {
+        0 => (ffi::EventMode::Detect, EventMode::Detect),
+        1 => (ffi::EventMode::Force, EventMode::Force),
+        _ => (ffi::EventMode::Suppress, EventMode::Suppress),
+    };
+    let x: ffi::UpdateOptions = ffi::UpdateOptionsFields { update_static: us, event_mode: fm }.into();
+    let got: UpdateOptions = x.into();
+    let want = UpdateOptions::new(us, nm);
+    assert!(std::mem::size_of::<UpdateOptions>() == 2);
+    let a: [u8; 2] = unsafe { std::mem::transmute(got) };
+    let b: [u8; 2] = unsafe { std::mem::transmute(want) };
+    assert!(a[0] == b[0] && a[1] == b[1]);
+    kani::cover!(!us && k == 2);
 }
